@@ -175,7 +175,10 @@ def run_case(case: dict, driver, variant: str = "1"):
             # the caller's own list object: what the caller does with it afterwards (reuse for another
             # scheduler, clear it) must not change what is registered here
             given = [cb(i) for i in registered]
-            obj = sched_mod.TimeIntervalScheduler(float(interval), given)
+            # `callbacks` is documented as an iterable: a list, a tuple, a generator, an iterator over a list
+            form = (sum(registered) + len(registered)) % 4
+            arg = [given, tuple(given), (g for g in given), iter(list(given))][form]
+            obj = sched_mod.TimeIntervalScheduler(float(interval), arg)
             given.append(rogue)
             del given[:-1]
         else:
@@ -375,7 +378,9 @@ def run_step_case(case: dict, driver):
     obj = None
     try:
         given = [cb(i) for i in registered]
-        obj = sched_mod.StepIntervalScheduler(n, given)
+        form = (sum(registered) + len(registered)) % 4
+        arg = [given, tuple(given), (g for g in given), iter(list(given))][form]
+        obj = sched_mod.StepIntervalScheduler(n, arg)
         given.append(lambda: log.append(-1))     # the caller goes on using its own list: never registered
         del given[:-1]
         out = "ok"
